@@ -197,8 +197,33 @@ func c02Stability(c *Ctx) {
 			}
 			return out
 		}
+		var pending []func()
+		if h%2 == 0 {
+			// directed: metadata of the neuronjson instance set at a version, the version committed, and the same
+			// metadata replaced or deleted at its descendants on the same branch and on a named branch
+			root := w.nodes[0]
+			for _, typ := range []string{"json_schema", "schema", "schema_batch"} {
+				if r.Chance(0.8) {
+					w.njSchema(root, typ, true)
+				}
+			}
+			pending = append(pending, func() {
+				for _, br := range []bool{false, true} {
+					if ch := w.child(root, br); ch != nil {
+						for _, typ := range []string{"json_schema", "schema", "schema_batch"} {
+							w.njSchema(ch, typ, r.Chance(0.6))
+						}
+					}
+				}
+			})
+			c.Count("stability.directed-schema")
+		}
 		for s := 0; s < steps; s++ {
-			w.Step()
+			if s == 3 && len(pending) > 0 {
+				pending[0]()
+			} else {
+				w.Step()
+			}
 			for _, n := range w.nodes {
 				if n.locked && committedSnap[n.v] == nil {
 					committedSnap[n.v] = filter(w.Snapshot(), n.v)
